@@ -15,9 +15,12 @@ LEVEL = 'model_checking'
 
 SIZES = [2, 3, 0, 5]
 # ABA: a cohort sampled with replacement (client A listed twice, every occurrence trains and is weighted)
-COHORTS = {'A': [0], 'B': [1], 'AB': [0, 1], 'AC': [0, 2], 'BA': [1, 0], 'DB': [3, 1], 'C': [2], 'ABA': [0, 1, 0]}
+# E: a round without any client at all (every sampled client dropped out)
+COHORTS = {'A': [0], 'B': [1], 'AB': [0, 1], 'AC': [0, 2], 'BA': [1, 0], 'DB': [3, 1], 'C': [2], 'ABA': [0, 1, 0], 'E': []}
 # b4drop: batch_size 4 with drop_remainder - the clients with 2 and 3 examples take NO step (zero update, non-zero weight)
-BATCHING = {'b2e1': (2, 1, None, 0), 'b3e2': (3, 2, None, 1), 'b1s1': (1, None, 1, 0), 'b4drop': (4, 1, None, 0, True)}
+# ...skip: one unshuffled pass (skip_shuffle=True); for MimeLite the full-batch gradient pass then uses the SAME batch size, one bucket
+BATCHING = {'b2e1': (2, 1, None, 0), 'b3e2': (3, 2, None, 1), 'b1s1': (1, None, 1, 0), 'b4drop': (4, 1, None, 0, True),
+            'b2e1skip': (2, 1, None, 0, False, True), 'b3e1skip': (3, 1, None, 0, False, True), 'b2e2skip': (2, 2, None, 0, False, True)}
 
 
 def pair(case):
@@ -60,6 +63,8 @@ def pair(case):
   if kind in ('mimelite_sgd', 'mimelite_sgd_clip'):
     # _clip: a clipping bound that never binds (1e6) leaves the reduction intact - also with empty clients in the cohort
     ck = {'clip': 1e6} if kind.endswith('_clip') else {}
+    if case['batching'].endswith('skip'):
+      ck['ghp'] = (hp[0], 1)
     a, ia = systems.build('mime_lite', **bk, base='sgd', lr=lr, server_lr=1.0, loss='rng', hp=hp, **ck)
     b, ib = systems.build('fed_avg', **bk, copt='sgd', sopt='sgd', lr_c=lr, lr_s=1.0, loss='rng', hp=hp)
     return plain(a), ia, plain(b), ib, P, P
@@ -123,6 +128,9 @@ def lockstep(case):
         continue
       if case['pair'].startswith('fedprox_mu') and len(h2) > case.get('mu_depth', 2):
         continue
+      if name == 'E' and case['pair'] not in ('fedprox0', 'apfl_global') and not case['pair'].startswith('fedprox_mu'):
+        continue   # Mime / MimeLite reject a cohort without clients (TypeError on the pinned tree: no full-batch gradient);
+        # hyp1: a cluster without clients stays untouched (C17) while FedAvg steps its momentum: the conflict recorded as F20
       if case['pair'].startswith('fedprox_mu') and len(h2) == 2 and case.get('second_level') and name not in case['second_level']:
         continue
       nc = dict(case, history=h2)
@@ -183,7 +191,7 @@ def plan(ctx):
   for p in ('fedprox0', 'hyp1', 'mimelite_sgd', 'apfl_global'):
     for lr in (0.125, 0.5):
       for b in BATCHING:
-        if not th and (lr, b) not in ((0.125, 'b2e1'), (0.5, 'b3e2'), (0.125, 'b1s1'), (0.5, 'b4drop')):
+        if not th and (lr, b) not in ((0.125, 'b2e1'), (0.5, 'b3e2'), (0.125, 'b1s1'), (0.5, 'b4drop'), (0.125, 'b2e1skip'), (0.5, 'b3e1skip'), (0.125, 'b2e2skip')):
           continue
         cs.append({'pair': p, 'lr': lr, 'batching': b, 'depth': depth, 'seed': ctx.seed})
   # clients whose datasets carry a batch-level preprocessor (centring on the batch mean): both sides must see the same batches
